@@ -178,6 +178,7 @@ package libschema
 
 //@ func builtinWhen$1
 //@   requires input != nil
+//@   assert-at return~return_lisp.Nil()#1 [the-clause-is-skipped-only-when-its-guard-fails] ret("applyConstraint#1", 0).Type == lisp.LError
 //@   ensures  [non-map-refused] old(input.Type) != lisp.LSortMap ==> isErrOf(result, "wrong-type")
 //@   property C14
 
@@ -189,4 +190,33 @@ package libschema
 //@ func builtinArrayOf$1
 //@   requires input != nil
 //@   ensures  [non-array-refused] old(input.Type) != lisp.LArray ==> isErrOf(result, "wrong-type")
+//@   property C14
+
+// ---- a malformed member constraint is refused when the composite constraint is
+// BUILT: a validator is returned only if the member just handled was well formed
+// (every iteration checks its own member before going on)
+
+//@ func builtinArrayOf
+//@   requires env != nil && args != nil
+//@   assert-at append [only-a-well-formed-member-is-collected] ret("getHandler", 0).Type != lisp.LError
+//@   property C14
+
+//@ func builtinHasKey
+//@   requires env != nil && args != nil && len(args.Cells) >= 1 && args.Cells[0] != nil
+//@   assert-at append [only-a-well-formed-member-is-collected] ret("getHandler", 0).Type != lisp.LError
+//@   property C14
+
+//@ func builtinMayHaveKey
+//@   requires env != nil && args != nil && len(args.Cells) >= 1 && args.Cells[0] != nil
+//@   assert-at append [only-a-well-formed-member-is-collected] ret("getHandler", 0).Type != lisp.LError
+//@   property C14
+
+//@ func builtinNoOtherKeys
+//@   requires env != nil && args != nil
+//@   assert-at append [only-a-well-formed-member-is-collected] ret("getHandler", 0).Type != lisp.LError
+//@   property C14
+
+//@ func builtinWhen
+//@   requires env != nil && args != nil && len(args.Cells) >= 3 && args.Cells[0] != nil && args.Cells[1] != nil && args.Cells[2] != nil
+//@   assert-at append [only-a-well-formed-member-is-collected] ret("getHandler", 0).Type != lisp.LError
 //@   property C14
